@@ -714,8 +714,11 @@ func (s *Netceptor) RemoveLocalServiceAdvertisement(service string) error {
 	s.serviceAdsLock.Lock()
 	defer s.serviceAdsLock.Unlock()
 	n, ok := s.serviceAdsReceived[s.nodeID]
-	connType := n[service].ConnType
+	var connType byte
 	if ok {
+		if sa, found := n[service]; found {
+			connType = sa.ConnType
+		}
 		delete(n, service)
 	}
 	sa := &serviceAdvertisementFull{
